@@ -32,6 +32,8 @@
  *                         log: "a pr<j>=.." .. "A pr<j> fd=<fd> k=<r|w|?> po=<peer open> pid=<pid>"
  *   pc<j>                 iv_popen_request_close, close(fd), free of the request: "a pc<j>" .. "A pc<j> now=<iv_now>"
  *                         every kill() that reaches an unreaped child is followed by "Kc <iv_now> <clock>"
+ * "Iq <deadline>" is logged whenever every thread is blocked and only the passing of virtual time can wake one (the process
+ * is at rest); "W4 <pid> <status> o=<options>" carries the wait4 options (n = WNOHANG, u = WUNTRACED, c = WCONTINUED).
  * Handler scripts: H<k>g<j> (signal interest j: "Cg<j>"), H<k>i<j> (wait interest j: "Ci<j> <status>").
  * At the end of a loop thread the remaining interests are unregistered ("a gu"/"a iu" as above); the
  * main thread finally logs "Zc <n>" = number of children whose termination was never reaped.
@@ -194,12 +196,16 @@ static void child_change(int c, int st, int thr, const char *why)
 
 	if (c < 0 || c >= NCH || cpid[c] == 0 || cdead[c] || st < 0 || ++nchanges > 48)
 		return;		/* 48: a handler script that answers every status with a new one must come to rest */
+	mt_chld_thr = thr;
+	if (!mt_child_status(cpid[c], st)) {	/* the kernel model did not take it (queue of this child is full) */
+		mt_chld_thr = -1;
+		return;
+	}
+	mt_chld_thr = -1;
 	if (WIFEXITED(st) || WIFSIGNALED(st))
 		cdead[c] = 1;
+	/* logged only when the change really exists: the drivers use these records as ground truth */
 	vk_trace("a %s pid=%d st=%d", why, cpid[c], st);
-	mt_chld_thr = thr;
-	mt_child_status(cpid[c], st);
-	mt_chld_thr = -1;
 }
 
 static void fork_hook(int pid)
@@ -468,6 +474,7 @@ void ivmt_ext_loop_init(struct tctx *c, int k)
 		mt_fork_hook = fork_hook;
 		mt_kill_hook = kill_hook;
 		mt_reap_hold = reap_hold;
+		mt_log_idle = 1;
 	}
 }
 
